@@ -227,3 +227,13 @@ def shrink(case):
         c = dict(case)
         c['ckw'] = dict(case['ckw'], iotaVal=0.0)
         yield c
+
+
+_gen_plain = gen
+
+
+def gen(rng, tier, idx):
+    case = _gen_plain(rng, tier, idx)
+    if True:
+        cm.maybe_bystanders(rng, case['sched'], case['P'])
+    return case
